@@ -1,5 +1,6 @@
 import NA.Model.VpnGraphCertDev
 import NA.Proofs.VpnGraphRefs
+import NA.Proofs.VpnGraphFinal
 /-!
 # Fragment H (certificate maps and their bindings): create-before-reference for the whole change list, the `exit` before
 toplevel `webvpn`
@@ -507,14 +508,14 @@ theorem diffRules_HJ (hw : WF A a b)
 
 theorem diffWeb_HJ (hw : WF A a b)
     (hkk : ∀ x ∈ a, ∀ y ∈ b, ∀ sx ∈ x.secs, ∀ sy ∈ y.secs, KindByKey sx.subs sy.subs)
-    (h h' : HSt) (hj : HJ A a b h)
-    (hal : ∀ al, h.wa = some al → ∀ r ∈ al, RuleOK a r) (hbl : ∀ bl, h.wb = some bl → ∀ r ∈ bl, RuleOK b r)
-    (hshape : ∀ al bl, h.wa = some al → h.wb = some bl → ∀ ra ∈ al, ∀ rb ∈ bl, ruleKey a ra = ruleKey b rb → ra.cm.isSome = rb.cm.isSome)
-    (he : diffWeb h = some h') : HJ A a b h' := by
+    (h h' : HSt) (wa wb : Option (List Rule)) (hj : HJ A a b h)
+    (hal : ∀ al, wa = some al → ∀ r ∈ al, RuleOK a r) (hbl : ∀ bl, wb = some bl → ∀ r ∈ bl, RuleOK b r)
+    (hshape : ∀ al bl, wa = some al → wb = some bl → ∀ ra ∈ al, ∀ rb ∈ bl, ruleKey a ra = ruleKey b rb → ra.cm.isSome = rb.cm.isSome)
+    (he : diffWeb h wa wb = some h') : HJ A a b h' := by
   unfold diffWeb at he
-  cases hwa : h.wa with
+  cases hwa : wa with
   | none =>
-    cases hwb : h.wb with
+    cases hwb : wb with
     | none => rw [hwa, hwb] at he; cases he; exact hj
     | some bl =>
       rw [hwa, hwb] at he
@@ -570,7 +571,7 @@ theorem diffWeb_HJ (hw : WF A a b)
             exact hr r' (List.mem_cons_of_mem _ hr') x hx
         exact fin bl h3 s3 (fun r hr x hx => k3 x (s1.2.1 r hr x hx))
   | some al =>
-    cases hwb : h.wb with
+    cases hwb : wb with
     | none =>
       rw [hwa, hwb] at he
       simp only [Option.some.injEq] at he
@@ -581,5 +582,180 @@ theorem diffWeb_HJ (hw : WF A a b)
     | some bl =>
       rw [hwa, hwb] at he
       exact (diffRules_HJ hw hkk true al bl (hal al hwa) (hbl bl hwb) (hshape al bl hwa hwb) h h' hj he).1
+
+/-! ## the whole body -/
+
+/-- well-formed configurations of fragment H -/
+structure WFH (a b : Cfg) : Prop where
+  wf : WF (a.objs.map (·.id)) a.objs b.objs
+  kk : ∀ x ∈ a.objs, ∀ y ∈ b.objs, ∀ sx ∈ x.secs, ∀ sy ∈ y.secs, KindByKey sx.subs sy.subs
+  ta : ∀ r ∈ a.tgmap, RuleOK a.objs r
+  tb : ∀ r ∈ b.tgmap, RuleOK b.objs r
+  wa : ∀ l, a.web = some l → ∀ r ∈ l, RuleOK a.objs r
+  wb : ∀ l, b.web = some l → ∀ r ∈ l, RuleOK b.objs r
+  st : ∀ ra ∈ a.tgmap, ∀ rb ∈ b.tgmap, ruleKey a.objs ra = ruleKey b.objs rb → ra.cm.isSome = rb.cm.isSome
+  sw : ∀ la lb, a.web = some la → b.web = some lb → ∀ ra ∈ la, ∀ rb ∈ lb, ruleKey a.objs ra = ruleKey b.objs rb →
+    ra.cm.isSome = rb.cm.isSome
+
+theorem init_HJ (a b : Cfg) : HJ (a.objs.map (·.id)) a.objs b.objs (initH a b) :=
+  ⟨rfl, init_J a.objs b.objs, rfl, fun _ hc => (nomatch hc)⟩
+
+theorem anchors_HJ (hw : WF A a b)
+    (hkk : ∀ x ∈ a, ∀ y ∈ b, ∀ sx ∈ x.secs, ∀ sy ∈ y.secs, KindByKey sx.subs sy.subs) (k : Kind) (h h' : HSt)
+    (hj : HJ A a b h) (he : (h.liftO fun st => diffAnchors st k) = some h') : HJ A a b h' := by
+  unfold HSt.liftO at he
+  dsimp only at he
+  cases hd : diffAnchors h.toSt k with
+  | none => rw [hd] at he; cases he
+  | some st' =>
+    rw [hd] at he
+    simp only [Option.map_some, Option.some.injEq] at he
+    rw [← he]
+    exact hj.withSt st' (diffAnchors_J (hj.wf hw) hkk k h.toSt st' hj.j hd)
+
+/-- **Create-before-reference for the whole change list of fragment H** (before the clean-up): every added sub-command that
+carries a reference, every `tunnel-group-map` rule and every `certificate-group-map` rule names objects that exist at that
+point — on the device from the start or created by an earlier command — and nothing is deleted. -/
+theorem body_refs_existH (a b : Cfg) (hw : WFH a b) (hb : HSt) (he : bodyH a b = some hb) :
+    refsOKH (a.objs.map (·.id)) hb.all = true ∧ ∀ c ∈ hb.all, isDelH c = false := by
+  unfold bodyH at he
+  cases h1 : ((initH a b).liftO fun st => diffAnchors st .tg) with
+  | none => rw [h1] at he; cases he
+  | some s1 =>
+    rw [h1] at he
+    simp only [Option.bind_some] at he
+    have j1 := anchors_HJ hw.wf hw.kk .tg _ s1 (init_HJ a b) h1
+    cases h2 : diffRules s1 false a.tgmap b.tgmap with
+    | none => rw [h2] at he; cases he
+    | some s2 =>
+      rw [h2] at he
+      simp only [Option.bind_some] at he
+      have j2 := (diffRules_HJ hw.wf hw.kk false a.tgmap b.tgmap hw.ta hw.tb hw.st s1 s2 j1 h2).1
+      cases h3 : (s2.liftO fun st => diffAnchors st .user) with
+      | none => rw [h3] at he; cases he
+      | some s3 =>
+        rw [h3] at he
+        simp only [Option.bind_some] at he
+        have j3 := anchors_HJ hw.wf hw.kk .user _ s3 j2 h3
+        have j4 := diffWeb_HJ hw.wf hw.kk s3 hb a.web b.web j3 hw.wa hw.wb hw.sw he
+        exact ⟨j4.ok, j4.nd⟩
+
+/-! ## the `exit` before toplevel `webvpn` (former F-VPN-webvpn) -/
+
+/-- what `setCmdConfMode("webvpn")` appends: nothing if that mode is open, else `exit` (if any mode is open) and `webvpn` -/
+theorem setWeb_all (h : HSt) (ho : h.out = []) :
+    h.setWeb.all = h.all ++ (if h.mode == some webMode then [] else
+      (if h.mode.isSome then [Cmd2.g .exit] else []) ++ [Cmd2.h .webvpn]) ∧ h.setWeb.mode = some webMode := by
+  unfold HSt.setWeb
+  split
+  · rename_i hm
+    refine ⟨by simp, ?_⟩
+    simpa using hm
+  · dsimp only
+    split
+    · refine ⟨?_, rfl⟩
+      show (h.all ++ (h.toSt.emit Chg.exit).out.map Cmd2.g) ++ [Cmd2.h .webvpn] = _
+      unfold St.emit
+      rw [ho]
+      simp
+    · refine ⟨?_, rfl⟩
+      show h.all ++ [Cmd2.h .webvpn] = _
+      simp
+
+/-- the strict device takes toplevel `webvpn` exactly when no group-policy / username mode is open -/
+theorem exec_webvpn (x : HDev) : (execH1 x (.h .webvpn)).isSome = !inGpUser x.d.mode := by
+  unfold execH1
+  cases inGpUser x.d.mode <;> rfl
+
+/-- after `exit` no mode of fragment G is open -/
+theorem exec_exit_mode (x x' : HDev) (h : execH1 x (.g .exit) = some x') (hw : x.wmode = false) : x'.d.mode = none := by
+  unfold execH1 at h
+  rw [hw] at h
+  simp only [Bool.false_eq_true, if_false] at h
+  cases he : exec1 x.d .exit with
+  | none => rw [he] at h; cases h
+  | some d =>
+    rw [he] at h
+    simp only [Option.map_some, Option.some.injEq] at h
+    rw [← h]
+    have hx : exec1 x.d .exit = if x.d.mode.isSome then some { x.d with mode := none } else none := rfl
+    rw [hx] at he
+    split at he
+    · cases he; rfl
+    · cases he
+
+theorem foldl_emitH_all (F : HSt → Rule → HChg) : ∀ (l : List Rule) (h : HSt),
+    ∃ t, (l.foldl (fun h r => h.emitH (F h r)) h).all = h.all ++ t
+  | [], h => ⟨[], by simp⟩
+  | r :: rs, h => by
+    obtain ⟨t, ht⟩ := foldl_emitH_all F rs (h.emitH (F h r))
+    exact ⟨Cmd2.h (F h r) :: t, by rw [List.foldl_cons, ht]; show (h.all ++ [_]) ++ t = _; simp⟩
+
+/-- **`exit` before a new toplevel `webvpn`**: when the device has no `webvpn` and the target has one, the commands appended
+after the transfer of what the rules reference are `exit` — exactly if the mode the engine has open is a group-policy's or a
+username's — then `webvpn`, then the rules. -/
+theorem diffWeb_new_all (h h' : HSt) (bl : List Rule) (he : diffWeb h none (some bl) = some h') :
+    ∃ h1 t, bl.foldl (fun (acc : Option HSt) r => acc.bind fun h => followRule h r) (some h) = some h1 ∧ (h1.out = [] →
+      h'.all = h1.all ++ (if inGpUser h1.mode then [Cmd2.g .exit] else []) ++ [Cmd2.h .webvpn] ++ t) := by
+  unfold diffWeb at he
+  dsimp only at he
+  cases hf : bl.foldl (fun (acc : Option HSt) r => acc.bind fun h => followRule h r) (some h) with
+  | none => rw [hf] at he; cases he
+  | some h1 =>
+    rw [hf] at he
+    simp only [Option.map_some, Option.some.injEq] at he
+    obtain ⟨t, ht⟩ := foldl_emitH_all (fun h r => .cgm false (h.printRule r r.seq)) bl
+      ({ ((if inGpUser h1.mode = true then h1.lift (·.emit .exit) else h1).emitH .webvpn) with mode := some webMode } : HSt)
+    refine ⟨h1, t, rfl, ?_⟩
+    intro ho
+    rw [← he, ht]
+    congr 1
+    show (if inGpUser h1.mode = true then h1.lift (·.emit .exit) else h1).all ++ [Cmd2.h .webvpn] = _
+    split
+    · show (h1.all ++ (h1.toSt.emit Chg.exit).out.map Cmd2.g) ++ [Cmd2.h .webvpn] = _
+      unfold St.emit
+      rw [ho]
+      simp
+    · simp
+
+/-! ## decidable form of the hypotheses -/
+
+def ruleOKB (objs : List Obj) (r : Rule) : Bool := r.refs.all fun x => (objs.find? fun y => y.id == x).isSome
+
+def shapeB (oa ob : List Obj) (la lb : List Rule) : Bool :=
+  la.all fun ra => lb.all fun rb => !(ruleKey oa ra == ruleKey ob rb) || (ra.cm.isSome == rb.cm.isSome)
+
+def wfhB (a b : Cfg) : Bool :=
+  wfB a.objs b.objs && kindByKeyB a.objs b.objs &&
+  a.tgmap.all (ruleOKB a.objs) && b.tgmap.all (ruleOKB b.objs) &&
+  (a.web.getD []).all (ruleOKB a.objs) && (b.web.getD []).all (ruleOKB b.objs) &&
+  shapeB a.objs b.objs a.tgmap b.tgmap && shapeB a.objs b.objs (a.web.getD []) (b.web.getD [])
+
+theorem ruleOK_of_B (objs : List Obj) (r : Rule) (h : ruleOKB objs r = true) : RuleOK objs r := by
+  intro x hx
+  exact (List.all_eq_true.1 h) x hx
+
+theorem shape_of_B (oa ob : List Obj) (la lb : List Rule) (h : shapeB oa ob la lb = true) :
+    ∀ ra ∈ la, ∀ rb ∈ lb, ruleKey oa ra = ruleKey ob rb → ra.cm.isSome = rb.cm.isSome := by
+  intro ra hra rb hrb hk
+  have := (List.all_eq_true.1 ((List.all_eq_true.1 h) ra hra)) rb hrb
+  simpa [hk] using this
+
+theorem wfh_of_wfhB (a b : Cfg) (h : wfhB a b = true) : WFH a b := by
+  unfold wfhB at h
+  simp only [Bool.and_eq_true] at h
+  obtain ⟨⟨⟨⟨⟨⟨⟨h1, h2⟩, h3⟩, h4⟩, h5⟩, h6⟩, h7⟩, h8⟩ := h
+  refine ⟨wf_of_wfB _ _ h1, kindByKey_of_B _ _ h2, ?_, ?_, ?_, ?_, shape_of_B _ _ _ _ h7, ?_⟩
+  · exact fun r hr => ruleOK_of_B _ r ((List.all_eq_true.1 h3) r hr)
+  · exact fun r hr => ruleOK_of_B _ r ((List.all_eq_true.1 h4) r hr)
+  · intro l hl r hr
+    rw [hl] at h5
+    exact ruleOK_of_B _ r ((List.all_eq_true.1 h5) r hr)
+  · intro l hl r hr
+    rw [hl] at h6
+    exact ruleOK_of_B _ r ((List.all_eq_true.1 h6) r hr)
+  · intro la lb hla hlb
+    rw [hla, hlb] at h8
+    exact shape_of_B _ _ _ _ h8
 
 end NA.Vpn.G
